@@ -15,7 +15,7 @@ use crate::token_math::{AmountDeltaU64};
 use crate::tick_math::*;
 use crate::oracle::{AdaptiveFeeInfo, AdaptiveFeeConstants, AdaptiveFeeVariables};
 use crate::fee_rate_manager::*;
-//@ tags C03 C06 C01
+//@ tags C03 C06 C07 C05 C01
 //@ struct manager/swap_manager.rs PostSwapUpdate
 
 //@ assume SwapTickSequence (Vec of proxied, RefMut-loaded tick arrays) is a shim whose four methods carry ASSUMED contracts: the next initialized tick lies on the trade side of the search index (or is the protocol bound), ticks it returns are reachable-state ticks (liquidity_net != i128::MIN); the fragment tick_arrays proves the per-array part of these contracts
@@ -122,5 +122,14 @@ pub open spec fn swap_post(w: Whirlpool, amount: u64, limit: u128, is_in: bool, 
         proof { axiom_price_at(); }
 //@ inject before /fee_rate_manager\.update_volatility_accumulator\(\)\?;/
             proof { axiom_price_at(); }
+            let ghost g_step_liquidity = curr_liquidity; let ghost g_step_price = curr_sqrt_price; let ghost g_fee_split_done = false;
+//@ inject before /let \(next_protocol_fee, next_fee_growth_global_input\) = calculate_fees\(/
+            // C06: the fee of a step accrues to the liquidity that was in range during that step (ghost state: liquidity and price at the step's start)
+            proof { assert(curr_liquidity == g_step_liquidity && curr_sqrt_price == g_step_price); }
+//@ inject after /curr_fee_growth_global_input = next_fee_growth_global_input;/
+            let ghost g_fee_split_done = true;
+//@ inject before /let \(update, next_liquidity\) = calculate_update\(/
+                    // C07: a crossed tick snapshots the fee growth AFTER this step's fee has been accrued
+                    proof { assert(g_fee_split_done); }
 //@ end
 }
